@@ -25,6 +25,7 @@ def parse_timedelta(x):
 def check_log(path, out):
     viol = []
     moves, charges, adds, cancels, pickups, dropoffs = {}, {}, 0, 0, {}, {}
+    paid, fares, charge_by_type, paid_at = {}, {}, {}, {}
     station_load, station_charge = {}, {}
     n = 0
     delta, timeout = out['delta'], out['timeout']
@@ -41,6 +42,9 @@ def check_log(path, out):
                 moves[r['vehicle_id']] = moves.get(r['vehicle_id'], 0.0) + float(r['distance_km'])
             elif t == 'vehicle_charge_event':
                 charges[r['vehicle_id']] = charges.get(r['vehicle_id'], 0.0) + float(r['energy'])
+                paid[r['vehicle_id']] = paid.get(r['vehicle_id'], 0.0) + float(r.get('price', 0.0))
+                paid_at[r['station_id']] = paid_at.get(r['station_id'], 0.0) + float(r.get('price', 0.0))
+                charge_by_type[str(r.get('energy_units'))] = charge_by_type.get(str(r.get('energy_units')), 0.0) + float(r['energy'])
                 key = (r['station_id'], parse_time(r['sim_time_start']))
                 station_charge[key] = station_charge.get(key, 0.0) + float(r['energy'])
             elif t == 'station_load_event':
@@ -55,6 +59,7 @@ def check_log(path, out):
             elif t == 'pickup_request_event':
                 rid = r['request_id']
                 pickups[rid] = pickups.get(rid, 0) + 1
+                fares[r['vehicle_id']] = fares.get(r['vehicle_id'], 0.0) + float(r.get('price', 0.0))
                 wait = parse_time(r['pickup_time']) - parse_time(r['request_time'])
                 if not (0 <= wait <= timeout + delta):
                     viol.append(('pickup_wait_out_of_range', {'request': rid, 'wait_s': wait, 'timeout': timeout, 'delta': delta, 'wait_time_seconds': r.get('wait_time_seconds')}))
@@ -83,6 +88,26 @@ def check_log(path, out):
     for key, e in station_load.items():
         if e != 0.0 and key not in station_charge:
             viol.append(('station_load_without_charge_events', {'station': key[0], 'time': key[1], 'load': e}))
+    # C05 over the whole run, from the final state and the written log: fleet energy gained = stations' energy dispensed, per
+    # energy type; each vehicle's balance = its fares - its charging payments; each station's balance = the payments made there
+    fin = out['final']
+    if fin.get('dispensed') is not None:
+        gained, disp = {}, {}
+        for vid, (_, g) in fin['vehicles'].items():
+            for e, x in g.items():
+                gained[e] = gained.get(e, 0.0) + x
+        for sid, dd in fin['dispensed'].items():
+            for e, x in dd.items():
+                disp[e] = disp.get(e, 0.0) + x
+        for e in sorted(set(gained) | set(disp)):
+            if not close(gained.get(e, 0.0), disp.get(e, 0.0)):
+                viol.append(('fleet_energy_gained_vs_dispensed', {'energy_type': e, 'vehicles_gained': gained.get(e, 0.0), 'stations_dispensed': disp.get(e, 0.0)}))
+        for vid, b in fin['balances']['vehicles'].items():
+            if not close(b, fares.get(vid, 0.0) - paid.get(vid, 0.0)):
+                viol.append(('vehicle_balance_vs_events', {'vehicle': vid, 'balance': b, 'fares': fares.get(vid, 0.0), 'payments': paid.get(vid, 0.0)}))
+        for sid, b in fin['balances']['stations'].items():
+            if not close(b, paid_at.get(sid, 0.0)):
+                viol.append(('station_balance_vs_events', {'station': sid, 'balance': b, 'payments_received': paid_at.get(sid, 0.0)}))
     if out['final']['requests_count'] is not None and out['final']['requests_count'] != adds:
         viol.append(('summary_requests_vs_add_events', {'summary': out['final']['requests_count'], 'add_events': adds}))
     if out['final']['cancelled_count'] is not None and out['final']['cancelled_count'] != cancels:
@@ -93,10 +118,12 @@ def check_log(path, out):
     for rid, c in dropoffs.items():
         if c != 1 or rid not in pickups:
             viol.append(('dropoff_without_single_pickup', {'request': rid, 'count': c}))
-    return viol, n, {'moves': len(moves), 'charge_vehicles': len(charges), 'adds': adds, 'cancels': cancels, 'pickups': len(pickups), 'dropoffs': len(dropoffs),
+    return viol, n, {'charged_by_unit': {k: round(v, 3) for k, v in charge_by_type.items()}, 'moves': len(moves), 'charge_vehicles': len(charges), 'adds': adds, 'cancels': cancels, 'pickups': len(pickups), 'dropoffs': len(dropoffs),
                      'station_load_records': len(station_load)}
 
-def engine(res, spec, tier, seed, extended=False):
+C05_KINDS = ('fleet_energy_gained_vs_dispensed', 'vehicle_balance_vs_events', 'station_balance_vs_events')
+
+def engine(res, spec, tier, seed, extended=False, only=None):
     t0 = time.time()
     n = 150 if tier == 'quick' else 600
     scens = eng_c15.scenarios(tier, seed)
@@ -118,11 +145,17 @@ def engine(res, spec, tier, seed, extended=False):
             if counts['pickups'] and counts['moves']:
                 res.cov['distinct_nontrivial'] += 1
             for k, v in counts.items():
-                totals[k] = totals.get(k, 0) + v
+                if isinstance(v, dict):
+                    for kk, vv in v.items():
+                        totals[f'{k}.{kk}'] = round(totals.get(f'{k}.{kk}', 0) + vv, 3)
+                else:
+                    totals[k] = totals.get(k, 0) + v
             totals['log_lines'] = totals.get('log_lines', 0) + lines
             if len(res.cov['samples']) < 3:
                 res.cov['samples'].append({'engine': 'eng_c19', 'scenario': os.path.basename(sc), 'steps': n, 'log_lines': lines, **counts})
             for kind, det in viol:
+                if (kind in C05_KINDS) != (only == 'C05'):
+                    continue
                 if kind not in seen:
                     seen.add(kind)
                     det = dict(det, scenario=os.path.basename(sc))
@@ -131,12 +164,16 @@ def engine(res, spec, tier, seed, extended=False):
             shutil.rmtree(d, ignore_errors=True)
     res.notes['eng_c19'] = dict(totals, scenarios=len(scens), wall_s=round(time.time() - t0, 1))
 
+def engine_c05(res, spec, tier, seed, extended=False):
+    """C05 over whole runs of generated and shipped scenarios (built-in generators, file-writing handlers): the three ledger checks"""
+    engine(res, spec, tier, seed, extended, only='C05')
+
 def replayer(payload):
     if payload.get('engine') != 'eng_c19':
         return None
     import check as chk
     r = chk.Result('C19', 'quick', payload['seed'])
-    engine(r, {}, 'quick', payload['seed'])
+    engine(r, {}, 'quick', payload['seed'], only=('C05' if payload.get('kind') in C05_KINDS else None))
     hits = [f for f in r.found if f['kind'] == payload['kind']]
     for h in hits[:2]:
         print('reproduced:', json.dumps(h['detail'], default=str))
